@@ -70,7 +70,11 @@ impl Wake for CommandWaker {
         // TODO: Does that mean we should bail, since waking ourselves is
         // now pointless?
         let _ = self.ready_queue.send(self.task_id);
+        #[cfg(feature = "crux_verif")]
+        crate::verif_sched::point(crate::verif_sched::Point::WakerIdQueued);
         self.woken.store(true, Ordering::Release);
+        #[cfg(feature = "crux_verif")]
+        crate::verif_sched::point(crate::verif_sched::Point::WakerFlagSet);
 
         // Note: calling `wake` before `register` is a no-op
         self.parent_waker.wake();
@@ -188,6 +192,8 @@ impl<Effect, Event> Command<Effect, Event> {
                         drop(task);
                     }
                 };
+                #[cfg(feature = "crux_verif")]
+                crate::verif_sched::point(crate::verif_sched::Point::CommandTaskDone);
             }
         }
     }
@@ -218,8 +224,12 @@ impl<Effect, Event> Command<Effect, Event> {
             Poll::Pending => TaskState::Suspended,
             Poll::Ready(_) => TaskState::Completed,
         };
+        #[cfg(feature = "crux_verif")]
+        crate::verif_sched::point(crate::verif_sched::Point::CommandTaskPolled);
 
         drop(waker);
+        #[cfg(feature = "crux_verif")]
+        crate::verif_sched::point(crate::verif_sched::Point::CommandWakerReleased);
 
         // If the task is pending, but there's only one copy of the waker - our one -
         // it can never be woken up again so we most likely need to evict it.
@@ -228,6 +238,8 @@ impl<Effect, Event> Command<Effect, Event> {
         // Note that there is an exception: the task may have used the waker and dropped it,
         // making it ready, rather than abandoned.
         let task_is_ready = arc_waker.woken.load(Ordering::Acquire);
+        #[cfg(feature = "crux_verif")]
+        crate::verif_sched::point(crate::verif_sched::Point::CommandEvictionMid);
         if result == TaskState::Suspended && !task_is_ready && Arc::strong_count(&arc_waker) < 2 {
             return TaskState::Cancelled;
         }
